@@ -26,6 +26,7 @@ D = "_dns.py"
 Q = "_handlers/multicast_outgoing_queue.py"
 B = "_services/browser.py"
 P = "_handlers/query_handler.py"
+LS = "_listener.py"
 
 # (name, kind, property, file, old, new)
 CASES = [
@@ -114,6 +115,14 @@ CASES = [
     ("P-R1", "rewrite", "C11", P, ("additionals", "extra_records"), None),
     ("P-R2", "rewrite", "C11", P, "            if len(self._questions) == 1:\n                question = self._questions[0]\n                if question.type in _RESPOND_IMMEDIATE_TYPES:",
      "            if len(self._questions) == 1:\n                first_question = self._questions[0]\n                if first_question.type in _RESPOND_IMMEDIATE_TYPES:"),
+    # ---- _listener.py (AsyncListener deferral) / C16
+    ("L-M1", "mutation", "C16", LS, "            if incoming.data == msg.data:\n                return", "            if incoming.data != msg.data:\n                return"),
+    ("L-M2", "mutation", "C16", LS, "        assert loop is not None\n        self._cancel_any_timers_for_addr(addr)\n", "        assert loop is not None\n"),
+    ("L-M3", "mutation", "C16", LS, "        packets = self._deferred.pop(addr, [])", "        packets = self._deferred.get(addr, [])"),
+    ("L-M4", "mutation", "C16", LS, "        if not msg.truncated:\n            self._respond_query(", "        if msg.truncated:\n            self._respond_query("),
+    ("L-M5", "mutation", "C16", LS, "_TC_DELAY_RANDOM_INTERVAL = (400, 500)", "_TC_DELAY_RANDOM_INTERVAL = (400, 600)"),
+    ("L-R1", "rewrite", "C16", LS, ("deferred", "pending"), None),
+    ("L-R2", "rewrite", "C16", LS, "        if msg:\n            packets.append(msg)", "        if msg is not None:\n            packets.append(msg)"),
     ("Q-R1", "rewrite", "C12", Q, ("random_delay", "delay_ms"), None),
     ("Q-R2", "rewrite", "C12", Q, "        if len(self.queue):\n            # If we calculate", "        if self.queue:\n            # If we calculate"),
     ("Q-R3", "rewrite", "C12", Q, "            answers.update(self.queue.popleft().answers)\n", "            group = self.queue.popleft()\n            answers.update(group.answers)\n"),
